@@ -106,6 +106,8 @@ def stream_cases(c, decomp):
             else:
                 ops.append(rng.choice(nums + dnums))
         lines.append("ST " + " ".join(ops))
+    # the same scenarios on ThreadedBufferedStream (no flush there)
+    lines += ["TS" + l[2:] for l in lines if " fl" not in l]
     return lines
 
 
@@ -192,8 +194,12 @@ def part_formatters(c, drv, kconst):
                 same = False
             if not same:
                 c.violation("formatter-wrong-text: ToString(%s bits %s) = %r does not denote the value" % (p[1], p[-1], text), {"harness": "hx_tostring", "case": l, "impl": o})
-        elif p[0] == "ST":
-            c.count(l, bucket="stream/" + ("edge" if len(p) == 4 else "random"))
+        elif p[0] in ("ST", "TS"):
+            c.count(l, bucket=("stream/" if p[0] == "ST" else "threaded-stream/") + ("edge" if len(p) == 4 else "random"))
+            sizes = [int(x) for x in op[1:-1]]
+            if p[0] == "TS" and (0 in sizes or any(x > k["block"] for x in sizes)):
+                c.violation("threaded-stream-block: ThreadedBufferedStream handed blocks of sizes %s to its writer (0 = poison, max %d)" % (sizes[:8], k["block"]),
+                            {"harness": "hx_tostring", "case": l[:600], "impl": o[:300]})
     c.sample({"formatter_case": dl[5], "impl": out[1 + len(ints) + 5]})
     c.sample({"stream_case": st[3][:200], "impl": out[1 + len(ints) + len(dl) + 3]})
     # the same cases with exact-size heap destinations under ASan: any store beyond the reservation is reported
